@@ -197,6 +197,20 @@ def products(ctx, dist):
                     # the PRIVATE key is handed to the library on purpose: nothing of it may appear in the product
                     req.append("jweenc\t%s\t-\t%s\t%s" % (G.dumps(tmpl), G.dumps(k), b"c06".hex()))
                     meta.append(("encrypt %s/%s (%s)" % (wrap, enc, where), k))
+    # key SETS (array and {"keys":[...]}) with every form of the recipient / signature template argument: nothing, one object,
+    # an array with one template per key -- the secrets of EVERY key of the set are searched for in the product
+    ecp, kw1, kw2 = keys.get("P-256"), G.oct_key(rnd, 16), G.oct_key(rnd, 32)
+    sets = [[kw1, kw2]] + ([[ecp, kw1], [kw1, ecp, kw2]] if ecp else [])
+    for ks in sets:
+        for form in (ks, {"keys": ks}):
+            for rcp in ("-", G.dumps({"header": {"kid": "one"}}), G.dumps([{"header": {"kid": "k%d" % i}} for i in range(len(ks))]), G.dumps([{} for _ in ks])):
+                req.append("jweenc\t%s\t%s\t%s\t%s" % (G.dumps({"protected": {"enc": "A128GCM"}}), rcp, G.dumps(form), b"c06".hex()))
+                meta.append(("encrypt to a key set (template argument: %s)" % ("none" if rcp == "-" else "array" if rcp.startswith("[") else "object"), {"k": None, "_all": ks}))
+    hs1, hs2 = G.oct_key(rnd, 32), G.oct_key(rnd, 48)
+    for form in ([hs1, hs2], {"keys": [hs1, hs2]}):
+        for sg in ("-", G.dumps({"header": {"kid": "one"}}), G.dumps([{"header": {"kid": "a"}}, {"header": {"kid": "b"}}])):
+            req.append("jwssig\t%s\t%s\t%s" % (G.dumps(pay), sg, G.dumps(form)))
+            meta.append(("sign with a key set (template argument: %s)" % ("none" if sg == "-" else "array" if sg.startswith("[") else "object"), {"k": None, "_all": [hs1, hs2]}))
     # exchanges
     for c in ("P-256", "P-384", "P-521"):
         a = keys.get(c)
@@ -221,7 +235,7 @@ def products(ctx, dist):
             continue
         n += 1
         dist["product: " + what.split(" ")[0]] = dist.get("product: " + what.split(" ")[0], 0) + 1
-        secrets = {v for m, v in k.items() if m in PRIVATE_NAMES and isinstance(v, str)}
+        secrets = {v for kk in (k.get("_all") or [k]) for m, v in kk.items() if m in PRIVATE_NAMES and isinstance(v, str)}
         allowed_k = what.startswith("exchange") and False
         bad = scan_product(obj, secrets)
         if bad:
